@@ -12,6 +12,7 @@ CALLS = {
     'op!=:qstr:qstr': ('expr', '{0} != {1}'),
     'qstr::isEmpty/0': ('expr', '{0} == 0'),
     'qstr::isNull/0': ('expr', '{0} == 0'),
+    'qstr::size/0': ('fn', 'qstr_size'), 'qstr::length/0': ('fn', 'qstr_size'), 'qstr::count/0': ('fn', 'qstr_size'),
     'qstr::startsWith/1': ('fn', 'qstr_startsWith'),
     'qstr::contains/1': ('fn', 'qstr_contains'),
     'qstr::toString/0': ('arg', 0),
